@@ -37,6 +37,9 @@ pub struct Listener<Stat, Disc, Filt, Stra, Auth, Loca> {
     auth_secret: Option<Vec<u8>>,
     max_packet_length: i32,
     auth_cookie_expiry: u64,
+    /// Verification hook: number of connections taken from the accept queue so far.
+    #[cfg(feature = "verif-hooks")]
+    verif_accepted: Arc<std::sync::atomic::AtomicUsize>,
 }
 
 impl<Stat, Disc, Filt, Stra, Auth, Loca> Listener<Stat, Disc, Filt, Stra, Auth, Loca>
@@ -70,7 +73,15 @@ where
             auth_secret: None,
             max_packet_length: DEFAULT_MAX_PACKET_LENGTH,
             auth_cookie_expiry: DEFAULT_AUTH_COOKIE_EXPIRY,
+            #[cfg(feature = "verif-hooks")]
+            verif_accepted: Arc::default(),
         }
+    }
+
+    /// Verification hook: a shared counter of the connections taken from the accept queue.
+    #[cfg(feature = "verif-hooks")]
+    pub fn verif_accepted_counter(&self) -> Arc<std::sync::atomic::AtomicUsize> {
+        self.verif_accepted.clone()
     }
 
     pub fn with_rate_limiter(mut self, rate_limiter: Option<RateLimiter<IpAddr>>) -> Self {
@@ -120,6 +131,9 @@ where
                     break;
                 },
             };
+            #[cfg(feature = "verif-hooks")]
+            self.verif_accepted
+                .fetch_add(1, std::sync::atomic::Ordering::SeqCst);
             self.handle(stream, addr).await;
         }
 
